@@ -23,6 +23,31 @@ func c02ExtData(n int) []byte {
 	return c03Data(0xE0, n)
 }
 
+// c02Pre: vacuity guards on the shape table (a helper once started to return nil for "zero bytes" and the
+// present-but-empty extension shapes dropped out of the enumeration without any check noticing).
+func c02Pre(r *engine.Run) {
+	var emptyExt, emptyPriv, full, fullEndingInEmptyExt int
+	for _, c := range c02Combos {
+		a := c.af
+		if a.Ext != nil && len(a.Ext) == 0 {
+			emptyExt++
+			if a.ContentLen() == 183 {
+				fullEndingInEmptyExt++
+			}
+		}
+		if a.Private != nil && len(a.Private) == 0 {
+			emptyPriv++
+		}
+		if a.ContentLen() == 183 {
+			full++
+		}
+	}
+	if emptyExt == 0 || emptyPriv == 0 || full == 0 || fullEndingInEmptyExt == 0 {
+		r.HarnessError("C02 shape table is vacuous: %d shapes with a present empty extension, %d with present empty private data, %d filling 183 bytes, %d filling 183 bytes and ending in an empty extension",
+			emptyExt, emptyPriv, full, fullEndingInEmptyExt)
+	}
+}
+
 type c02Combo struct {
 	af   ref.AF
 	name string
@@ -628,6 +653,7 @@ var _ = gots.ErrNoPayload
 func init() {
 	engine.Register(&engine.Property{
 		ID: "C02", Title: "Header and payload partition the packet; setting a payload reads back exactly", Level: "model_checking",
+		Pre: c02Pre,
 		Scenarios: []engine.ScenarioRunner{
 			&engine.Enum[c02Case]{
 				Name: "setpayload",
